@@ -36,6 +36,8 @@ def num(v):
     if isinstance(v, float):
         if v != v:
             return NAN
+        if v in (float('inf'), float('-inf')):
+            return ('fn', 'inf', (('num', Fr(1 if v > 0 else -1)),))
         v = Fr(v)
     return ('num', Fr(v))
 
